@@ -61,7 +61,13 @@ func FindImportSpec(f *ast.File, path string) *ast.ImportSpec {
 	}
 
 	for _, got := range f.Imports {
-		if ImportPath(got) == path {
+		if got == nil || got.Path == nil {
+			continue
+		}
+		// An earlier change may have put something other than a string
+		// literal there. That is not the import we are looking for, and
+		// not a reason to panic either: printing the file reports it.
+		if p, err := strconv.Unquote(got.Path.Value); err == nil && p == path {
 			return got
 		}
 	}
